@@ -226,9 +226,16 @@ class World(EventDispatcher):
         (TODO) returns cached results from this method.
         """
         fringe = [component_type]
+        # With multiple inheritance a subtype is reachable through more
+        # than one path: keep track of visited types to report each
+        # component once
+        visited = set()
 
         while fringe:
             subtype = fringe.pop()
+            if subtype in visited:
+                continue
+            visited.add(subtype)
             fringe += subtype.__subclasses__()
 
             for entity in self._components.get(subtype, []):
